@@ -193,12 +193,18 @@ def p_roundtrip(ctx, scn, algo, declared, nchunks):
     scn.list()
 
 
-def p_oneshot(ctx, scn, keyed, algo):
+def p_oneshot(ctx, scn, keyed, algo, key="k"):
     D = scn.blob("D")
     data = scn.whole(D)
-    r = scn.write("k", data, algo=algo) if keyed else scn.write_hash(data, algo=algo)
-    scn.metadata("k")
-    scn.read("k")
+    r = scn.write(key, data, algo=algo) if keyed else scn.write_hash(data, algo=algo)
+    scn.metadata(key)
+    scn.read(key)
+    scn.exists(r.value) if r.kind == "ok" else None
+    if key != "k":
+        scn.remove(key)
+        scn.metadata(key)
+        scn.write(key, data)
+        scn.read(key)
     if r.kind == "ok":
         scn.read_hash(r.value)
     scn.list()
@@ -346,6 +352,8 @@ def tasks(tier, flavours):
     for keyed in (True, False):
         for algo in (None, "Sha1"):
             P.append(("p_oneshot", dict(keyed=keyed, algo=algo)))
+    for key in ("say \"hi\"\t\\n", "clé/../x", ""):
+        P.append(("p_oneshot", dict(keyed=True, algo=None, key=key)))
     for which in ("size", "integrity"):
         for keyed in (True, False):
             P.append(("p_rejected", dict(which=which, keyed=keyed)))
